@@ -40,6 +40,8 @@ type c22Scenario struct {
 	unknown  bool     // a completion for a job id nobody issued
 	abort    bool     // ResizeAbort request
 	failSend string   // SendTo of the instruction to this node fails
+	rejoin   string   // a NodeJoin event for this EXISTING member (a node that restarted) — makes the coordinator recompute the cluster state
+	nodeState string  // "id:state": a node-state message that changes that member's state — the other recomputation trigger
 	replicaN int
 }
 
@@ -54,21 +56,71 @@ type c22World struct {
 	okJ      map[int64]map[string]bool     // per job: nodes whose success completion was accepted
 	jobsSeen map[int64]bool
 	multiRun string // non-empty: two jobs RUNNING at once observed
+	earlyLeft string // non-empty: the cluster left RESIZING at a moment that is not the end of a job
+	lastState string // previous broadcast cluster state (RESIZING or not)
+	lastCode  int32  // 0 none yet, 1 not RESIZING, 2 RESIZING (atomic)
+	sendFailedJob int64 // id of the job whose instruction distribution failed (atomic; 0 none)
+	endedAtEnter int // number of ended jobs when RESIZING was entered
 	handlerErr []string
 	nextID   int32
 }
 
-func (w *c22World) SendSync(m Message) error  { return nil }
+// SendSync sees every cluster-state broadcast of the coordinator. Invariant 2 ("the cluster leaves the
+// resizing state WHEN THE JOB ENDS"): a transition out of RESIZING must coincide with the end of a job —
+// it is a violation if no job has ended (DONE / ABORTED) since the cluster entered RESIZING, or if a
+// job is still RUNNING at that moment.
+func (w *c22World) SendSync(m Message) error { return nil }
+
+// sawStatus: the coordinator broadcasts a ClusterStatus to every other node through SendTo from
+// errgroup goroutines while it holds cluster.mu and waits for them — so the deliveries of ONE
+// broadcast may run in parallel (the atomic swap lets exactly one of them judge the transition) and
+// different broadcasts are ordered by cluster.mu.
+func (w *c22World) sawStatus(cs *ClusterStatus) {
+	code := int32(1)
+	if cs.State == ClusterStateResizing {
+		code = 2
+	}
+	old := atomic.SwapInt32(&w.lastCode, code)
+	if old == code {
+		return
+	}
+	w.lastState = map[int32]string{0: "", 1: "not-RESIZING", 2: ClusterStateResizing}[old]
+	ended, running := 0, 0
+	failed := atomic.LoadInt64(&w.sendFailedJob)
+	for id, j := range w.c.jobs {
+		switch {
+		case j.state == resizeJobStateDone || j.state == resizeJobStateAborted || (failed != 0 && id == failed):
+			ended++
+		case j.state == resizeJobStateRunning:
+			running++
+		}
+	}
+	switch {
+	case cs.State == ClusterStateResizing && w.lastState != ClusterStateResizing:
+		w.endedAtEnter = ended
+	case cs.State != ClusterStateResizing && w.lastState == ClusterStateResizing:
+		if (ended == w.endedAtEnter || running > 0) && w.earlyLeft == "" {
+			w.earlyLeft = fmt.Sprintf("the coordinator broadcast %s although no resize job has ended since it entered RESIZING (jobs ended before/now: %d/%d, running: %d)", cs.State, w.endedAtEnter, ended, running)
+		}
+	}
+}
 func (w *c22World) SendAsync(m Message) error { return nil }
 
 // SendTo records resize instructions and spawns the completion handler thread(s) for them, the way
 // Server.receiveMessage would run markResizeInstructionComplete in its own goroutine per message.
 func (w *c22World) SendTo(n *Node, m Message) error {
+	if cs, ok := m.(*ClusterStatus); ok {
+		w.sawStatus(cs)
+		return nil
+	}
 	in, ok := m.(*ResizeInstruction)
 	if !ok {
 		return nil
 	}
 	if w.sc.failSend == n.ID {
+		// the job gives up (run() delivers ABORTED and returns the error): it has ended, although the
+		// coordinator never records a final state for it
+		atomic.StoreInt64(&w.sendFailedJob, in.JobID)
 		return fmt.Errorf("send to %s failed", n.ID)
 	}
 	// invariant 1: when a job distributes instructions no OTHER job may be running
@@ -195,6 +247,11 @@ func c22Scenarios(thorough bool) []c22Scenario {
 			c22Scenario{name: "leave+dup-success(A)", leave: true, dupNode: "A", replicaN: r},
 			c22Scenario{name: "leave+abort", leave: true, abort: true, replicaN: r},
 			c22Scenario{name: "join+join", second: true, replicaN: r},
+			// events that make the coordinator RECOMPUTE the cluster state while a resize is queued / running
+			c22Scenario{name: "join+rejoin(B)", rejoin: "B", replicaN: r},
+			c22Scenario{name: "join+nodestate(B)", nodeState: "B:" + nodeStateDown, replicaN: r},
+			c22Scenario{name: "leave+rejoin(B)", leave: true, rejoin: "B", replicaN: r},
+			c22Scenario{name: "join+abort+rejoin(B)", abort: true, rejoin: "B", replicaN: r},
 		)
 		if thorough {
 			out = append(out,
@@ -252,6 +309,19 @@ func TestVerif_C22(t *testing.T) {
 				if sc.abort {
 					x.GoID(2, "abort", func() { _ = cl.completeCurrentJob(resizeJobStateAborted) })
 				}
+				if sc.rejoin != "" {
+					x.GoID(4, "rejoin("+sc.rejoin+")", func() {
+						n := c22Node(sc.rejoin)
+						n.State = nodeStateReady
+						if err := cl.nodeJoin(n); err != nil {
+							w.handlerErr = append(w.handlerErr, "rejoin: "+err.Error())
+						}
+					})
+				}
+				if sc.nodeState != "" {
+					parts := strings.SplitN(sc.nodeState, ":", 2)
+					x.GoID(5, "nodestate("+sc.nodeState+")", func() { _ = cl.receiveNodeState(parts[0], parts[1]) })
+				}
 				if sc.unknown {
 					x.GoID(3, "complete(unknown job)", func() {
 						_ = cl.markResizeInstructionComplete(&ResizeInstructionComplete{JobID: 424242, Node: c22Node("C")})
@@ -306,6 +376,10 @@ func TestVerif_C22(t *testing.T) {
 				end := fmt.Sprintf("members=%s state=%s currentJob=%v running=%d okFrom=%v", members, cl.state, cl.currentJob != nil, running, c22Keys(w.okFrom))
 				c.Outcome(end)
 				c.Distinct(name + "|" + end)
+				if w.earlyLeft != "" {
+					c.Violate("left-RESIZING-while-job-active "+key, cs, w.earlyLeft+" ; "+end, "the cluster is RESIZING from the moment the membership change is accepted until the job ends")
+					return false
+				}
 				if w.multiRun != "" || running > 1 {
 					c.Violate("two-jobs-running "+key, cs, w.multiRun+" "+end, "at most one resize job running")
 					return false
